@@ -71,6 +71,12 @@ def usage_cells():
 def cases(tier, seed):
     kinds = list(KINDS)
     i = 0
+    if tier == "thorough":
+        for sel in itertools.combinations(kinds, 4):
+            for toks in HOLDER_SETS:
+                if any(fails(k, toks, "in-file") for k in sel):
+                    for variant in range(4):
+                        yield {"k": "mix", "sel": list(sel), "target": "in-file", "toks": list(toks), "variant": variant}
     for sel in itertools.permutations(kinds, 3):
         for toks in HOLDER_SETS:
             if any(fails(k, toks, "in-file") for k in sel):
